@@ -21,7 +21,7 @@ ASSUMPTIONS = [
     'liveness ("always eventually fired") is decided at quiescence: queue empty and no runnable task for two loop iterations',
     'events cancelled only before their dispatch; a cancelled event has no handler steps',
 ]
-REQUIRED = ['complete_requested', 'nested_complete', 'descendant_cancelled', 'descendant_stopped', 'descendant_raised',
+REQUIRED = ['raising_descendant_asks_for_feedback_of_its_own', 'success_requested_one_handler_raised_another_finished_later', 'complete_requested', 'nested_complete', 'descendant_cancelled', 'descendant_stopped', 'descendant_raised',
             'descendant_from_generator_step', 'several_roots_in_flight', 'complete_channels_override', 'closure_depth_3plus',
             'handler_suspended_in_call_or_wait', 'call_or_wait_timed_out_in_closure', 'suspended_again_right_after_timeout',
             'root_events_fired_on_a_component_that_joins_later', 'complete_requesting_event_object_fired_again', 'feedback_event_handler_in_closure', 'derived_child_event_in_closure', 'driven_by_tick_from_the_calling_thread', 'manager_had_an_earlier_run', 'earlier_run_in_another_thread', 'earlier_run_ended_with_exit_code']
@@ -230,6 +230,12 @@ def evaluate(case, w):
                 feats.add('descendant_raised')
             if u in from_gen_step:
                 feats.add('descendant_from_generator_step')
+            fl = w.events[u]['flags']
+            if u in raised and (fl.get('success') or fl.get('failure')):
+                feats.add('raising_descendant_asks_for_feedback_of_its_own')
+                if fl.get('success') and any(h['gen'] and ['raise'] not in h['body'] and ['raise', 'base'] not in h['body']
+                                              for h in case['handlers'] if h['name'] == w.events[u]['name']):
+                    feats.add('success_requested_one_handler_raised_another_finished_later')
         if uid in raised:
             feats.add('descendant_raised')
         for u in cl:
@@ -320,6 +326,20 @@ def corpus():
     cs.append({'name': 'derived-chain', 'handlers': [
         HD(1, 'a', [['firechild', 'part'], ['fire', {'name': 'c'}]]), HD(2, 'a_part', [['fire', {'name': 'c'}], ['firechild', 'sub']]), HD(3, 'a_part_sub', [['fire', {'name': 'd'}]]),
         HD(4, 'c', [['fire', {'name': 'd'}]]), HD(5, 'd', [['fire', {'name': 'e'}]]), HD(6, 'e', [])], 'fires': [{'name': 'a', 'flags': C}]})
+    # events in the closure that ask for feedback of their own (success / failure / notify, any combination), with a handler that raises next
+    # to a generator handler that finishes later, in both priority orders; raising generators next to plain handlers; two generators
+    for k, fl in enumerate(({'success': True}, {'success': True, 'failure': True}, {'failure': True}, {'success': True, 'complete': True},
+                            {'success': True, 'notify': True})):
+        for order in (0, 1):
+            cs.append({'name': 'feedback-in-closure-%d-%d' % (k, order), 'handlers': [
+                HD(1, 'a', [['fire', {'name': 'step', 'flags': fl}]]),
+                HD(2, 'step', [['raise']], prio=order), HD(3, 'step', [['yield', None], ['fire', {'name': 'late'}], ['yield', 'v']], gen=True, prio=1 - order),
+                HD(4, 'late', [['fire', {'name': 'e'}]]), HD(5, 'e', [])], 'fires': [{'name': 'a', 'flags': C}]})
+        cs.append({'name': 'feedback-in-closure-%d-gens' % k, 'handlers': [
+            HD(1, 'a', [['yield', None], ['fire', {'name': 'step', 'flags': fl}], ['fire', {'name': 'step', 'flags': fl}]], gen=True),
+            HD(2, 'step', [['yield', None], ['raise']], gen=True, prio=1), HD(3, 'step', [['yield', None], ['yield', None], ['fire', {'name': 'late'}]], gen=True),
+            HD(6, 'step', [['ret', 'p']], prio=2), HD(4, 'late', [['yield', None], ['fire', {'name': 'e'}]], gen=True), HD(5, 'e', [])],
+            'fires': [{'name': 'a', 'flags': C}, {'name': 'step', 'flags': dict(fl, complete=True)}]})
     # (events fired by a <name>_success handler are not part of the closure of what caused <name>: only observed)
     cs.append({'name': 'success-handler-fires', 'handlers': [
         HD(1, 'a', [['fire', {'name': 'b', 'flags': {'success': True}}]]), HD(2, 'b', [['fire', {'name': 'c'}]]), HD(3, 'b_success', [['fire', {'name': 'd'}]]),
@@ -424,6 +444,8 @@ def gen_plain_case(rng):
                         spec = {'name': rng.choice(names[rng.randint(lv + 1, nlev - 1)])}
                         if rng.random() < 0.25:
                             spec['flags'] = dict(C)
+                        if rng.random() < 0.3:     # feedback of its own, any combination
+                            spec['flags'] = dict(spec.get('flags') or {}, **{f: True for f in ('success', 'failure', 'notify') if rng.random() < 0.5})
                         if rng.random() < 0.12:
                             spec['cancel'] = True
                         body.append(['fire', spec])
